@@ -322,6 +322,11 @@ class Facts:
                 r = self.resolve_name(mod, d)
                 if r in self._all_class_quals():
                     return r
+                if r and self.repo.has_func(r) and r.count(".") == 1:
+                    # a module-level factory: every return hands back a freshly constructed object of one repo class
+                    rt = self.factory_type(r)
+                    if rt:
+                        return rt
                 if d.startswith("self.") and cls:
                     # self.transformer_class(...) : a class stored on self
                     t = self.self_types.get(f"{mod}.{cls}", {}).get(d[5:])
@@ -337,6 +342,39 @@ class Facts:
         if isinstance(expr, ast.Attribute) and isinstance(expr.value, ast.Name) and expr.value.id == "self" and cls:
             return self.self_types.get(f"{mod}.{cls}", {}).get(expr.attr)
         return None
+
+    def factory_type(self, qual: str, _depth: int = 0) -> str | None:
+        """Repo class a module-level function returns a *fresh* instance of on every path (all its
+        returns are constructor calls of that class, or locals bound to one), else None."""
+        memo = self.__dict__.setdefault("_factory_memo", {})
+        if qual in memo:
+            return memo[qual]
+        memo[qual] = None
+        if _depth > 3:
+            return None
+        fn = self.repo.func(qual)
+        mod = qual.split(".")[0]
+        local: dict[str, str] = {}
+        for node in ast.walk(fn):
+            if isinstance(node, ast.Assign) and len(node.targets) == 1 and isinstance(node.targets[0], ast.Name):
+                ty = self._ctor_type(mod, None, fn, node.value, local)
+                if ty:
+                    local[node.targets[0].id] = ty
+        rets = [n for n in ast.walk(fn) if isinstance(n, ast.Return)]
+        tys = set()
+        for r in rets:
+            if r.value is None:
+                return None
+            if isinstance(r.value, ast.Name) and r.value.id in local:
+                tys.add(local[r.value.id])
+            elif isinstance(r.value, ast.Call):
+                t = self._ctor_type(mod, None, fn, r.value, local)
+                tys.add(t)
+            else:
+                return None
+        if len(tys) == 1 and None not in tys:
+            memo[qual] = next(iter(tys))
+        return memo[qual]
 
     def _infer_self_types(self) -> None:
         # two rounds so that CommentsTransformer(self.mapfile_transformer) sees the first round
